@@ -334,16 +334,29 @@ def cloneQueries (s : GenSt) (a b : String) (tag : Nat) : GenSt :=
 
 def genFork (rng : Rng) (len : Nat) : Rng × Array String :=
   let (rng, n, cap) := pickConfig rng
+  -- where the clone is taken: after a random prefix; after everything was read (often an empty graph whose
+  -- allocator has advanced); after allocator calls only; at once; with (nearly) all 14 groups alive
+  let (rng, scenario) := rng.below 8
+  let (rng, groups) := rng.pick [12, 13, 14, 14]
+  let (rng, extra) := rng.below 8
+  let cap := if scenario ≥ 6 then 2 * groups + 2 + extra else cap
+  let n := if scenario ≥ 6 then max n 2 else n
   let s := GenSt.start rng n cap
   let (rng, k) := s.rng.below 3
   let s := { s with rng := rng }
   let p := if k = 0 then profAlloc else if k = 1 then profCycle else profGc
-  -- where the clone is taken: after a random prefix; after everything was read (often an empty graph whose
-  -- allocator has advanced); after allocator calls only; at once
-  let (rng, scenario) := s.rng.below 6
-  let s := { s with rng := rng }
   let s :=
-    if scenario = 0 then
+    if scenario ≥ 6 then
+      let s := (List.range groups).foldl (fun (s : GenSt) i =>
+        let (rng, c) := s.rng.below 3
+        let s := { s with rng := rng }
+        let ops : List Op := [.add (2 * i), .add (2 * i + 1), .bind (2 * i) (2 * i + 1) (.alpha 0)] ++
+          (if c = 0 then [] else [.put (2 * i + 1) (Hx.Hex.ofBytes [UInt8.ofNat i])])
+        match s.tryOps ops with
+        | some s' => s'
+        | none => s) s
+      if scenario = 7 then (List.range 6).foldl (fun s _ => s.stepRandom profGc) s else s
+    else if scenario = 0 then
       let s := (List.range (len / 2)).foldl (fun s _ => s.stepRandom p) s
       let ids := R.keys s.r s.cap
       ids.foldl (fun (s : GenSt) v => if v ∈ s.r.ids then s.emit (.data v) else s) s
@@ -477,7 +490,11 @@ def genMerge (rng : Rng) (broken : Bool) : Rng × Array String :=
   let (rng, slack) := rng.below (kr + 2)
   let capL := if tight = 0 then kl + 1 + slack else capBig
   let (rng, extraR) := rng.below 6
-  let capR := kr + 1 + extraR + 3
+  -- breakage of the right graph (mode 4: more lone vertices than a group can have members)
+  let (rng, mode) := rng.below 5
+  let (rng, many) := rng.below 8
+  let many := 14 + many
+  let capR := kr + 1 + extraR + 3 + (if broken ∧ mode = 4 then many else 0)
   let (rng, idsL) := pickIds rng capL (kl + 1)
   let (rng, idsR) := pickIds rng capR (kr + 1)
   let (rng, tl) := genTree rng idsL pool
@@ -493,15 +510,13 @@ def genMerge (rng : Rng) (broken : Bool) : Rng × Array String :=
   -- right graph g1
   let s1 : GenSt := { s0 with h := "g1", r := Sodg.R.empty, cap := capR, lines := s0.lines.push s!"new g1 {n} {capR}" }
   let s1 := match s1.tryOps (treeOps tr) with | some x => x | none => s1
-  -- breakage of the right graph
-  let (rng, mode) := s1.rng.below 4
-  let s1 := { s1 with rng := rng }
   let freeR := (List.range capR).filter (· ∉ idsR)
   let s1 := if broken then
       match mode, freeR with
       | 0, a :: _ => match s1.tryOps [.add a] with | some x => x | none => s1
       | 1, a :: b :: _ => match s1.tryOps [.add a, .add b, .bind a b (.alpha 0), .put b (Hx.Hex.ofBytes [9])] with | some x => x | none => s1
       | 2, a :: _ => match s1.tryOps [.add a, .put a (Hx.Hex.ofBytes [7, 7])] with | some x => x | none => s1
+      | 4, fr => (fr.reverse.take many).foldl (fun (s : GenSt) a => match s.tryOps [.add a] with | some x => x | none => s) s1
       | _, _ => s1
     else s1
   let (rng, left) := s1.rng.pick (tl.map (·.id))
@@ -516,6 +531,11 @@ def genMerge (rng : Rng) (broken : Bool) : Rng × Array String :=
     | some (ra', _, _) => { s0 with r := ra', lines := lines, rng := rng }
     | none => { s0 with lines := lines, rng := rng }
   let s0' := s0'.drain
+  -- the allocator after the merge and the collections: ids handed out inside merge must not come back
+  let s0' := (List.range 4).foldl (fun (s : GenSt) _ =>
+    match s.r.nextId s.cap with
+    | some (_, i) => (match s.tryOps [.nextId, .add i] with | some x => x | none => s)
+    | none => s) s0'
   (s0'.rng, s0'.lines)
 
 /-- render profile: a history, then every text export of the graph and of each present (and one absent) vertex;
